@@ -1165,6 +1165,44 @@ def _trivial_getters(cls) -> dict:
 _CONSUMERS = ("sum", "any", "all", "min", "max", "sorted", "set", "frozenset", "tuple", "list", "dict")
 
 
+def _plain_path(x) -> bool:
+    return isinstance(x, tuple) and (x[:1] in (("v",), ("p",)) or (x[:1] == ("a",) and len(x) == 3 and (x[1] == ("self",) or _plain_path(x[1]))))
+
+
+def _unroll_asserts(block: tuple) -> tuple:
+    """a loop over a few constants whose body only asserts is those assertions, one per value; an asserted conjunction is one
+    assertion per conjunct"""
+    out = []
+    for st in block:
+        if isinstance(st, tuple) and st:
+            if st[0] == "for" and len(st) == 5 and not st[4] and isinstance(st[1], tuple) and st[1][:1] == ("v",) and st[3] \
+                    and all(isinstance(b, tuple) and b[:1] == ("assert",) for b in st[3]):
+                items = None
+                it = st[2]
+                if isinstance(it, tuple) and it[:2] == ("c", ("g", "range")) and len(it[2]) == 1 and is_num(it[2][0]) and not it[3]:
+                    n = num_value(it[2][0])
+                    if n.denominator == 1 and 0 <= n <= 8:
+                        items = [k_num(j) for j in range(int(n))]
+                elif isinstance(it, tuple) and it[:1] in (("tuple",), ("list",)) and len(it) == 2 and len(it[1]) <= 8:
+                    items = list(it[1])
+                if items is not None:
+                    for item in items:
+                        sg = Sigma(raw_subst={st[1]: item})
+                        out.extend(_unroll_asserts(tuple(sg.apply(b) for b in st[3])))
+                    continue
+            if st[0] == "assert" and len(st) == 2 and isinstance(st[1], tuple) and st[1][:1] == ("and",):
+                out.extend(("assert", c) for c in st[1][1])
+                continue
+            if st[0] == "if" and len(st) == 4:
+                st = ("if", st[1], _unroll_asserts(st[2]), _unroll_asserts(st[3]))
+            elif st[0] == "for" and len(st) == 5:
+                st = ("for", st[1], st[2], _unroll_asserts(st[3]), _unroll_asserts(st[4]))
+            elif st[0] == "while" and len(st) == 4:
+                st = ("while", st[1], _unroll_asserts(st[2]), _unroll_asserts(st[3]))
+        out.append(st)
+    return tuple(out)
+
+
 def _renorm_local(x: S) -> S:
     """the rewrites that the canonicaliser applies when it sees a construct, applied again after locals have been looked
     through (so that the normal form does not depend on whether a value sat in a local): tests (`len(x) > 0` is `x`),
@@ -1189,6 +1227,23 @@ def _renorm_local(x: S) -> S:
         return mk_or([_truth(y) for y in x[1]])
     if t == "comp" and len(x) == 4:
         return ("comp", x[1], x[2], tuple((g[0], g[1], _truth(g[2])) for g in x[3]))
+    if t == "proj" and len(x) == 4 and isinstance(x[2], int) and _plain_path(x[1]):
+        return ("s", x[1], k_num(x[2]))        # a, b, c = seq  reads  seq[0], seq[1], seq[2]
+    if t == "c" and len(x) == 4 and x[1] in (("g", "all"), ("g", "any")) and len(x[2]) == 1 and not x[3] and isinstance(x[2][0], tuple) \
+            and x[2][0][:1] == ("comp",) and len(x[2][0][3]) == 1 and len(x[2][0][2]) == 1:
+        # all(p(v) for v in (a, b, c))  ==  p(a) and p(b) and p(c)   (a display of a few items)
+        (bv, it, cond), = x[2][0][3]
+        if isinstance(it, tuple) and it[:1] in (("tuple",), ("list",)) and len(it) == 2 and 1 <= len(it[1]) <= 8 and isinstance(bv, tuple) and bv[:1] == ("b",):
+            insts = []
+            for item in it[1]:
+                sg = Sigma(raw_subst={bv: item})
+                e_, c_ = sg.apply(x[2][0][2][0]), sg.apply(cond)
+                if x[1][1] == "all":
+                    insts.append(e_ if c_ == K_TRUE else mk_or([mk_not(c_), e_]))
+                else:
+                    insts.append(e_ if c_ == K_TRUE else mk_and([c_, e_]))
+            if not any(_free_bound(i_) for i_ in insts):
+                return mk_and(insts) if x[1][1] == "all" else mk_or(insts)
     if t == "cmp" and len(x) == 4 and x[1] in ("is", "isnot") and K_NONE in (x[2], x[3]):
         from .peval import fold as _fold           # (T if c else None) is None  ==  not c
         return _fold(x)
@@ -1908,6 +1963,7 @@ class Normalizer:
         unfolded = _unfold_list_comps(block, fresh)
         if unfolded != block:
             block = look_through(shape_passes(unfolded))
+        block = _unroll_asserts(block)
         if function_body:
             block = _function_tail(block)
             # a predicate written as guards ('if not a: return False' ; 'return b') is the one expression it computes ('a and b')
